@@ -407,3 +407,164 @@ def c18():
 
 
 CHECKS["C18"] = c18
+
+
+# ----------------------------------------------------------------------------- C19
+HOST_MODEL_CFG = """SPECIFICATION Spec
+CONSTANTS
+  Mode = "model"
+  Allowed = {%s}
+  MaxLen = %d
+INVARIANTS Isolation FreshObjects OutcomeIsFunctionOfProgram HostSurvives
+CHECK_DEADLOCK FALSE
+"""
+HOST_CONF_CFG = """SPECIFICATION Spec
+CONSTANTS
+  Mode = "conform"
+  Allowed = {}
+  MaxLen = 0
+INVARIANTS HistoryOK
+CHECK_DEADLOCK FALSE
+"""
+
+HOST_POOL = [
+    # (id, text, mode, typecheck)
+    ("ok_a", "type T = 1\nlet f() : T = print fa; close self\nprc[a] : T = f()\nprc[m] : 1 = wait a; print done_a; close self\n", "async", True),
+    ("ok_b_same_names", "type T = 1 * 1\nlet f() : T = x : 1 <- new close self; y : 1 <- new close self; print fb; send self<x, y>\nprc[a] : T = f()\nprc[m] : 1 = <u, v> <- recv a; wait u; wait v; print done_b; close self\n", "async", True),
+    ("ok_sync_parks", "prc[a] : 1 = print pa; close self\nprc[b] : 1 = print pb; close self\n", "sync", True),
+    ("ok_np", "type N = +{z : 1, s : N}\nlet two() : N = a : 1 <- new close self; b : N <- new self.z<a>; self.s<b>\nlet eat(n : N) : 1 = case n ( z<c> => print z; wait c; close self | s<c> => print s; eat(c) )\nprc[m] : 1 = n <- new two(); eat(n)\n", "np", True),
+    ("ok_split", "prc[s] : 1 -* 1 = print before; <x, y> <- recv self; print after; wait x; close y\nprc[m] : 1 = <s1, s2> <- split s; u : 1 <- new close self; v : 1 <- new close self; r1 : 1 <- new send s1<u, self>; r2 : 1 <- new send s2<v, self>; wait r1; wait r2; print fin; close self\n", "async", True),
+    ("rej_type", "prc[a] : 1 = wait b; close self\nprc[b] : 1 -* 1 = <x, y> <- recv self; wait x; close y\n", "async", True),
+    ("rej_defs", "type A = B\ntype A = A\nlet f(b : A) : A = fwd self b\n", "async", True),
+    ("rej_undefined", "type A = B\nlet f(b : A) : A = fwd self b\nprc[a] : A = f(b)\nprc[b] : A = close self\n", "async", True),
+    ("rej_internal", "type A = &{l : B}\ntype B = 1\nlet f(x : A) : B = x.l<+self>\n", "async", True),
+    ("rej_linear", "let f(x : lin 1, y : lin 1) : lin 1 = wait x; close self\n", "async", True),
+    ("bad_syntax", "prc[a : 1 = close\n", "async", True),
+    ("bad_comment", "type A = 1 /* never closed\nprc[a] : A = close self\n", "async", True),
+    ("bad_char", "prc[a] : 1 = close self\n@\nprc[b] : 1 = close self\n", "async", True),
+    ("untyped_stuck", "prc[a] : 1 = print hi; wait b; close self\nprc[b] : 1 -* 1 = <x,y> <- recv self; close self\n", "async", False),
+    ("ok_same_proc_names", "prc[a] : 1 = print other_a; close self\nprc[m] : 1 = wait a; print other_m; close self\n", "sync", True),
+]
+
+
+def _host_job(pid, k, trace=True):
+    i, text, mode, tc = next(p for p in HOST_POOL if p[0] == pid)
+    return {"id": "%s#%d" % (pid, k), "text": text, "mode": mode, "typecheck": tc, "execute": True, "monitor": False, "gomaxprocs": 16, "seed": 1,
+            "yield": 0.0, "trace": trace, "dump": False, "max_ms": 8000, "max_events": 20000, "grace_ms": 40 if tc else 0}
+
+
+def _host_obs(r):
+    if r.get("crash"):
+        return {"parse": "", "tc": "", "prints": [], "crash": True}
+    return {"parse": r.get("parse") or "", "tc": r.get("tc") or "", "prints": sorted(r.get("prints") or []), "crash": False}
+
+
+def c19():
+    import rt
+    t0 = time.time()
+    v = vlib.Verdict("C19")
+    vlib.build(("vdrive",))
+    tier, seed = vlib.tier(), vlib.seed()
+    rng = random.Random(seed * 17 + 3)
+    binary = os.path.join(vlib.BUILD, "vdrive")
+    os.makedirs(vlib.WORKROOT, exist_ok=True)
+    with vlib.Work("c19") as work:
+        m0 = vlib.tlc("Host", HOST_MODEL_CFG % ("", 4 if tier == "quick" else 5), workers=4, timeout=600, work=work, env={"VERIF_TRACES": "/dev/null"})
+        if not m0["ok"]:
+            v.harness_errors.append("Host.tla (no deviation allowed) violates its own properties: %s" % (m0["violated"] or m0["error_text"]))
+        dev = {}
+        if tier == "thorough":
+            for d in ('"F14"', '"SharedTable"'):
+                md = vlib.tlc("Host", HOST_MODEL_CFG % (d, 3), workers=4, timeout=300, work=work, env={"VERIF_TRACES": "/dev/null"})
+                dev[d] = md["violated"]
+                if md["ok"]:
+                    v.harness_errors.append("Host.tla does not discriminate the deviation %s" % d)
+        # outcomes alone (fresh process each; twice, to know that the outcome is stable)
+        alone, unstable = {}, []
+        for pid, _, _, _ in HOST_POOL:
+            obs = []
+            for k in range(3):
+                r = vlib._run_batch(binary, [_host_job(pid, k)], 30)["%s#%d" % (pid, k)]
+                ev = r.get("events") or []
+                if r.get("late") or (ev and rt.premature_quiescence(ev, _host_job(pid, 0)["mode"])):
+                    continue
+                obs.append(_host_obs(r))
+            if not obs or any(o != obs[0] for o in obs):
+                unstable.append(pid)
+            else:
+                alone[pid] = obs[0]
+        for pid in unstable:
+            v.notes.append("outcome of %s alone is not stable on this machine: not used in histories" % pid)
+        pool = [p[0] for p in HOST_POOL if p[0] in alone]
+        nh, maxlen = (36, 6) if tier == "quick" else (400, 9)
+        hists = []
+        for k in range(nh):
+            L = rng.randint(2, maxlen)
+            hists.append([rng.choice(pool) for _ in range(L)])
+        # directed: every ordered pair (a then b)
+        if tier == "thorough":
+            hists += [[a, b] for a in pool for b in pool]
+        else:
+            hists += [[a, b] for a in pool[:6] for b in pool[6:12]][:18]
+
+        def run_hist(h):
+            for attempt in range(3):
+                jobs = [_host_job(pid, i) for i, pid in enumerate(h)]
+                res = vlib._run_batch(binary, jobs, 30)
+                out, suspicious = [], False
+                for j, pid in zip(jobs, h):
+                    r = res[j["id"]]
+                    o = _host_obs(r)
+                    ev = r.get("events") or []
+                    if o != alone[pid] and (r.get("late") or r.get("hang") or (ev and rt.premature_quiescence(ev, j["mode"]))):
+                        suspicious = True
+                    out.append({"prog": pid, "obs": o})
+                if not suspicious:
+                    break
+            return out
+
+        import concurrent.futures
+        with concurrent.futures.ThreadPoolExecutor(max_workers=8) as ex:
+            observed = list(ex.map(run_hist, hists))
+        data = {"alone": alone, "histories": observed}
+        tp = work.path("host_obs.json")
+        json.dump(data, open(tp, "w"))
+        r = vlib.tlc("Host", HOST_CONF_CFG, env={"VERIF_TRACES": tp}, workers=1, timeout=600, work=work, extra=("-continue",))
+        bad = []
+        if r["violated"] == "HistoryOK":
+            bad = sorted({int(x) for x in re.findall(r"^/\\ hi = (\d+)", r["out"], re.M)})
+        elif not r["ok"]:
+            v.harness_errors.append("Host conformance run failed: %s" % (r["violated"] or r["error_text"]))
+        for hi in bad:
+            h = observed[hi - 1]
+            first = next((i for i, e in enumerate(h) if e["obs"] != alone[e["prog"]]), 0)
+            e = h[first]
+            v.violation("history %s: run %d (%s) gives %s, alone it gives %s" % ([x["prog"] for x in h], first + 1, e["prog"], json.dumps(e["obs"])[:200], json.dumps(alone[e["prog"]])[:200]),
+                        {"history": [x["prog"] for x in h], "programs": {p[0]: {"text": p[1], "mode": p[2], "typecheck": p[3]} for p in HOST_POOL if p[0] in {x["prog"] for x in h}},
+                         "observed": h, "alone": {x["prog"]: alone[x["prog"]] for x in h}},
+                        {"kind": "history", "crash": e["obs"]["crash"]})
+        # binding self-test: a history with one altered outcome must be rejected
+        st = {"ran": False}
+        if observed:
+            fake = json.loads(json.dumps(observed[0]))
+            fake[-1]["obs"]["prints"] = fake[-1]["obs"]["prints"] + ["__leaked__"]
+            tp2 = work.path("host_self.json")
+            json.dump({"alone": alone, "histories": [fake]}, open(tp2, "w"))
+            r2 = vlib.tlc("Host", HOST_CONF_CFG, env={"VERIF_TRACES": tp2}, workers=1, timeout=120, work=work)
+            st = {"ran": True, "altered_outcome": "rejected" if r2["violated"] == "HistoryOK" else "accepted", "ok": r2["violated"] == "HistoryOK"}
+            if not st["ok"]:
+                v.harness_errors.append("Host conformance self-test: an altered outcome was accepted")
+        cov = {"states": max(1, m0["distinct"] + r["distinct"]), "transitions": max(1, m0["generated"] + r["generated"]),
+               "traces_validated_against_impl": len(observed) - len(bad),
+               "samples": [{"history": [x["prog"] for x in observed[0]], "observed": observed[0]}] if observed else [],
+               "model": {"ok": m0["ok"], "distinct": m0["distinct"], "max_history": 4 if tier == "quick" else 5, "deviations_rejected": dev},
+               "pool": pool, "pool_unstable": unstable, "histories": len(observed), "runs_in_histories": sum(len(h) for h in observed),
+               "histories_rejected": len(bad), "selftest": st}
+        vlib.write_evidence("C19", "model_checking", cov, time.time() - t0, len(v.violations),
+                            ["a history is the sequence of jobs one driver process executes (parse, typecheck, run, in the three execution modes, with and without typechecking)",
+                             "the outcome of a run = parse result, typecheck result (error text included), printed multiset, host alive; the outcome alone is measured three times in fresh processes",
+                             "a mismatch in a run whose heartbeat timed out early is re-run (up to 3 times) before it is reported"])
+    return v.finish()
+
+
+CHECKS["C19"] = c19
